@@ -184,6 +184,7 @@ func c10Case(r *fw.Rand, index string) fw.Case {
 // own window), a partial delete that touches only a later file, then a compaction — the
 // blocks the delete did not touch may be copied without decoding, the tombstoned one may not.
 func c10OrderedCase(r *fw.Rand, index string) fw.Case {
+	monitored := r.Intn(4) == 0
 	ops := []string{"reset " + index}
 	live := map[string]bool{}
 	nf := 2 + r.Intn(3)
@@ -205,7 +206,11 @@ func c10OrderedCase(r *fw.Rand, index string) fw.Case {
 		k := 1 + r.Intn(nf-1) // not the oldest file
 		lo := c10Base + int64(k*10+r.Intn(5))*1000
 		hi := lo + int64(r.Intn(5))*1000
-		ops = append(ops, fmt.Sprintf("del %s - %d %d", series[r.Intn(len(series))][0], lo, hi))
+		verb := "del"
+		if d == 0 && monitored {
+			verb = "delmon" // compactions are switched on from outside in mid-delete
+		}
+		ops = append(ops, fmt.Sprintf("%s %s - %d %d", verb, series[r.Intn(len(series))][0], lo, hi))
 	}
 	if r.Intn(3) == 0 {
 		ops = append(ops, "reopen")
